@@ -242,6 +242,9 @@ def trim_steps(fn, name, dom, leaves, loop_leaves, off, rep):
     probs, n = [], 0
     SW = dom.strip_wrap
     for lf in loop_leaves:
+        if len([m for m in (_membership(dom, c) for c in lf.pc) if m is not None]) >= 2:
+            raise Unsupported('a pass of the trim loop tests several bytes (unrolled?): outside the one-byte-per-pass template')
+    for lf in loop_leaves:
         n += 1
         tests = [m for m in (_membership(dom, c) for c in lf.pc) if m is not None]
         if len(tests) != 1 or not tests[0][1]:
